@@ -62,10 +62,10 @@ fn count_sack_none() {
     assert!(count_sack_duplicates(&h, &OnAckResult::default(), kani::any()) == 0);
 }
 
-//@ harness id=recovery.k.count_sack_some.attempt kind=attempt props=C06 tier=thorough timeout=900 text="count_sack_duplicates with a SACK: returns the threshold 3 at once when >= 3 packets are selectively acked, else counter + 1 (bitvec count_ones: at CBMC's limit)"
+//@ harness id=recovery.k.count_sack_some kind=bounded props=C06 tier=quick timeout=900 bound="selective ACK of one byte (8 packets)" text="count_sack_duplicates with a SACK (the `equivalent selective-ACK evidence`): returns the threshold 3 at once when >= 3 packets are selectively acked, else counter + 1"
 #[kani::proof]
 #[kani::unwind(10)]
-fn count_sack_some_attempt() {
+fn count_sack_some() {
     let mut h = any_plain_header();
     let bytes: [u8; 1] = kani::any();
     h.extensions.selective_ack = Some(crate::raw::selective_ack::SelectiveAck::deserialize(&bytes));
